@@ -250,6 +250,8 @@ def main() -> int:
         try:
             scn = check.generate(seed, tier)
             scn["hash_seed"] = int(os.environ.get("PYTHONHASHSEED", "0") or 0)
+            if sys.flags.optimize:
+                scn["py_optimize"] = 1  # (the interpreter runs with assertions disabled: replays must too)
             res = run_isolated(check, scn)
         except Exception:  # noqa: BLE001
             emit({"type": "harness_error", "i": i, "seed": seed, "trace": traceback.format_exc()[-4000:]})
